@@ -1737,6 +1737,26 @@ static void bufr_put_desc_value ( BUFR_Message *bufr, BufrDescriptor *bd )
                   bufr_print_debug( errmsg );
                   }
                }
+            else if (bd->value->type == VALTYPE_INT64)
+               {
+/* 
+ * the width of the reference value counts in the choice of the value type, 
+ * so an element of 32 bits or less can carry an INT64 value (e.g. 0 40 035)
+ */
+               i64val = bufr_value_get_int64( bd->value );
+               if ((bd->encoding.reference != 0)||(bd->encoding.scale != 0))
+                  {
+                  ui64val = bufr_cvt_dval_to_i64( bd->descriptor, &(bd->encoding), (double)i64val );
+                  }
+               else if (i64val < 0)
+                  {
+                  ui64val = bufr_missing_ivalue(  bd->encoding.nbits );
+                  }
+               else
+                  {
+                  ui64val = i64val;
+                  }
+               }
             else if (bd->value->type == VALTYPE_FLT32)
                {
                fval = bufr_value_get_float( bd->value );
